@@ -25,11 +25,16 @@ enum Fate {
 }
 
 fn talk_requests(rng: &mut Rng, n: usize) -> Vec<(NodeAddress, Vec<u8>, Vec<u8>)> {
-    let nsrc = 1 + rng.usize(5);
+    let nsrc = 1 + rng.usize(6);
     let sources: Vec<NodeAddress> = (0..nsrc)
         .map(|i| {
             let id: [u8; 32] = rng.array();
-            let addr = if i % 3 == 2 { v6(i as u16 + 1, 4000 + i as u16) } else { v4(10, 5, 0, i as u8 + 1, 4000 + i as u16) };
+            // plain IPv4, IPv6, and IPv4-mapped IPv6 (an IPv4 peer seen through a dual-stack socket)
+            let addr = match i % 4 {
+                2 => v6(i as u16 + 1, 4000 + i as u16),
+                3 => std::net::SocketAddr::new(std::net::IpAddr::V6(std::net::Ipv4Addr::new(10, 5, 0, i as u8 + 1).to_ipv6_mapped()), 4000 + i as u16),
+                _ => v4(10, 5, 0, i as u8 + 1, 4000 + i as u16),
+            };
             NodeAddress::new(addr, NodeId::new(&id))
         })
         .collect();
@@ -318,6 +323,61 @@ pub fn scenario_mt(seed: u64, rep: &mut Report) {
     rep.fingerprint(&("mt", n / 10));
 }
 
+/// Handler level (R1): a TALKREQ that the real handler delivers is answered on the wire exactly
+/// once, whatever the state of the session it arrived on — in particular a session this node
+/// dialled without knowing the peer's record and whose record request is still unanswered.
+pub fn scenario_wire(seed: u64, rep: &mut Report) {
+    use crate::peer::rlp_ref::RefMessage;
+    use crate::rig::engine::{Engine, Ev, OutClass};
+    use crate::rig::r1::RigConfig;
+    let rt = crate::rig::r1::runtime(seed);
+    rt.block_on(async {
+        let mut rng = Rng::new(seed ^ 0x20E);
+        let mut e = Engine::new(seed, RigConfig::default(), 2, None).await;
+        e.app_responds = true;
+        e.app_knows_peers = rng.bool();
+        let with_enr = rng.chance(1, 3);
+        let ignores = rng.chance(2, 3);
+        e.peers[0].behaviour.ignore_enr_requests = ignores;
+        // the node dials peer 0 (mostly without its record); peer 1 is only ever incoming
+        let dial_kind = if rng.bool() { 1 } else { 5 };
+        e.submit(0, dial_kind, with_enr);
+        let settle = std::time::Duration::from_millis(*rng.pick(&[3u64, 10, 40]));
+        e.run_for(settle).await;
+        let n = 1 + rng.usize(4);
+        for _ in 0..n {
+            let who = if rng.chance(3, 4) { 0 } else { 1 };
+            e.peer_request(who, 5);
+            let gap = std::time::Duration::from_millis(*rng.pick(&[1u64, 5, 30, 300]));
+            e.run_for(gap).await;
+        }
+        e.quiesce().await;
+        rep.evaluations += 1;
+        rep.count("wire_scenarios");
+        // every TALKREQ the handler delivered and the application answered
+        let mut delivered = 0u64;
+        for (k, t) in e.trace.iter().enumerate() {
+            let Ev::AppResponse { peer_addr, id } = &t.ev else { continue };
+            // was it a TALK request?
+            let is_talk = e.trace[..k].iter().rev().any(|u| matches!(&u.ev, Ev::Out(HandlerOut::Request(na, r)) if na.socket_addr == *peer_addr && r.id.0 == *id && matches!(r.body, RequestBody::Talk { .. })));
+            if !is_talk {
+                continue;
+            }
+            delivered += 1;
+            rep.count("wire_talk_requests_answered_by_application");
+            let on_wire = e.trace[k..].iter().filter(|u| matches!(&u.ev, Ev::Sent { to, class: OutClass::Message { msg: Some(RefMessage::TalkResp { id: rid, .. }), .. }, .. } if to == peer_addr && rid == id)).count();
+            let awaiting = !with_enr && ignores;
+            if on_wire != 1 {
+                rep.violation(if on_wire == 0 { "C20:no-response-on-the-wire" } else { "C20:second-response-on-the-wire" }, format!("TALKREQ#{} was delivered and answered by the application; {on_wire} TALKRESP datagrams left for {peer_addr} (session dialled without record: {}, its record request unanswered: {ignores})", hx(id), !with_enr), json!({"scenario_seed": seed.to_string(), "variant": "wire", "trace": e.dump_trace(30)}));
+            }
+            if awaiting {
+                rep.count("wire_talk_answered_on_session_awaiting_record");
+            }
+        }
+        rep.fingerprint(&("wire", with_enr, ignores, dial_kind, delivered.min(5)));
+    });
+}
+
 pub fn run(p: &Params) -> Report {
     let mut rep = Report::new("C20");
     if let Some(r) = &p.replay {
@@ -327,12 +387,19 @@ pub fn run(p: &Params) -> Report {
     }
     if let Some(r) = &p.replay {
         let seed: u64 = r["replay"]["scenario_seed"].as_str().unwrap().parse().unwrap();
-        if r["replay"]["variant"] == "multi-thread" {
+        if r["replay"]["variant"] == "wire" {
+            scenario_wire(seed, &mut rep);
+        } else if r["replay"]["variant"] == "multi-thread" {
             scenario_mt(seed, &mut rep);
         } else {
             scenario(seed, &mut rep);
         }
         return rep;
+    }
+    let w = p.budget(3_200, 200_000);
+    for i in 0..w {
+        let seed = p.shard_seed(0x2E_0000 + i);
+        crate::util::guarded(&mut rep, seed, |rep| scenario_wire(seed, rep));
     }
     let n = p.budget(6_000, 400_000);
     for i in 0..n {
